@@ -1094,7 +1094,7 @@ def estimate_sky(
     """
     if not np.ma.is_masked(image) and mask is not None:
         image = np.ma.masked_array(image, mask)
-    edge_pixels = np.concatenate(
+    edge_pixels = np.ma.concatenate(
         (
             image[:n_pix_sample, :],
             image[-n_pix_sample:, :],
@@ -1105,7 +1105,7 @@ def estimate_sky(
     )
     median_val = np.ma.median(edge_pixels)
     err_on_median = bws(edge_pixels)
-    return median_val, err_on_median, np.prod(edge_pixels.shape)
+    return median_val, err_on_median, edge_pixels.count()
 
 
 def autoprior(
